@@ -238,6 +238,70 @@ def run(R):
                              f'position metadata {bad[0][0]} of the node the object stands for', bad[0][1])
         else:
             R.traces += 1
+    # SPEC stream: leaves that merely LOOK like parsed objects (namedtuples have _fields and _replace; objects of another
+    # grammar module; plain classes with a _fields attribute) and containers that are not "fields and lists" (tuples,
+    # dicts, sets) pass through unchanged: the very same object, no callback applied to it, nothing inside it rewritten
+    import collections
+    import sys as _sys
+    _sys.path.insert(0, core.REPO)
+    from sourcer import Grammar
+    g2 = Grammar('class Pt { x: /[a-z]/ }\nclass Box { inner: Pt; more: Pt* }\nstart = Box\n')
+    other = Grammar('class Pt { x: /[a-z]/ }\nstart = Pt\n')
+    Version = collections.namedtuple('Version', 'major minor holder')
+
+    class Lookalike:
+        _fields = ('a',)
+
+        def __init__(self, a):
+            self.a = a
+
+        def _replace(self, **kw):
+            return Lookalike(kw.get('a', self.a))
+
+    def foreign_leaves():
+        inner = g2.Pt('q')
+        return [('namedtuple', Version(1, 2, inner), inner), ('namedtuple-in-list', [Version(3, 4, inner)], inner), ('other-module-object', other.Pt('z'), None),
+                ('lookalike', Lookalike(inner), inner), ('tuple', (inner, 'k'), inner), ('dict', {'k': inner}, inner), ('frozenset', frozenset(['k']), None),
+                ('namedtuple-of-lists', Version([inner], 0, 0), inner)]
+    for label, leaf, inner in foreign_leaves():
+        for place in ('field', 'list', 'root-list'):
+            pt = g2.Pt('a')
+            if place == 'field':
+                tree = g2.Box(pt, [g2.Pt('b')])
+                tree.inner = leaf                       # a field holding the leaf
+                holder = lambda r: r.inner
+            elif place == 'list':
+                tree = g2.Box(pt, [leaf, g2.Pt('b')])
+                holder = lambda r: r.more[0]
+            else:
+                tree = [leaf, g2.Box(pt, [])]
+                holder = lambda r: r[0]
+            seen = []
+
+            def cb(n2, seen=seen):
+                seen.append(n2)
+                return g2.Pt('R') if isinstance(n2, g2.Pt) else n2
+            R.count('foreign-leaves', (label, place), nontrivial=True)
+            try:
+                res = g2.transform(tree, cb)
+            except Exception as e:                  # noqa
+                R.counterexample('foreign-leaves', 'exception:' + type(e).__name__, {'leaf': label, 'place': place}, 'a tree', str(e)[:100])
+                continue
+            got = holder(res)
+            leaf0 = leaf[0] if (label == 'namedtuple-in-list' and place != 'x') else leaf
+            want_same = leaf
+            problems = []
+            if got is not want_same and not (isinstance(leaf, list) and isinstance(got, list) and len(got) == len(leaf) and all(a is b for a, b in zip(got, leaf))):
+                problems.append('the leaf was rebuilt or replaced: %r' % (got,))
+            if any(x is leaf or (isinstance(leaf, list) and any(x is y for y in leaf)) for x in seen if not isinstance(x, list)):
+                problems.append('a callback was applied to the leaf')
+            if inner is not None and any(x is inner for x in seen):
+                problems.append('a callback was applied to an object held inside the leaf')
+            if problems:
+                R.counterexample('foreign-leaves', 'leaf-that-looks-like-an-object-is-transformed', {'leaf': label, 'place': place},
+                                 'the same object, untouched and unvisited', problems)
+            else:
+                R.traces += 1
     R.assumptions += ['callbacks come from a closed family (identity; replace a class by a fresh object with/without metadata, by a scalar, '
                       'by a list of its fields, by a _replace copy, by its first field); identities of objects made by callbacks are not compared',
                       'a callback that returns a node of the input with empty metadata makes transform write that node\'s metadata: counted, '
